@@ -13,36 +13,73 @@ pub fn files_json(files: &[(String, String)]) -> serde_json::Value
 	json!(files.iter().map(|(n, s)| json!({"file": n, "source": s})).collect::<Vec<_>>())
 }
 
-/// `[` directly inside an array literal: after `[`, or after `,` when the
-/// innermost open bracket is `[`
-fn has_nested_array_literal(src: &str) -> bool
+/// the source without its functions (definitions and heads)
+fn strip_functions(src: &str) -> String
 {
 	let toks = crate::reflex::lex(src.as_bytes()).toks;
-	let mut stack: Vec<u8> = Vec::new();
-	let mut prev: &str = "";
-	for t in &toks
+	let text = |k: usize| src.get(toks[k].start..toks[k].end).unwrap_or("");
+	let mut out = String::new();
+	let mut keep_from = 0usize;
+	let mut depth = 0i32;
+	let mut i = 0;
+	while i < toks.len()
 	{
-		let text = src.get(t.start..t.end).unwrap_or("");
-		match text
+		let t = text(i);
+		match t
 		{
-			"[" =>
-			{
-				if prev == "[" || (prev == "," && stack.last() == Some(&b'['))
-				{
-					return true;
-				}
-				stack.push(b'[');
-			}
-			"(" | "{" => stack.push(text.as_bytes()[0]),
-			"]" | ")" | "}" =>
-			{
-				stack.pop();
-			}
+			"{" | "(" | "[" => depth += 1,
+			"}" | ")" | "]" => depth -= 1,
 			_ => (),
 		}
-		prev = text;
+		if depth == 0 && t == "fn"
+		{
+			// the item starts at the run of `pub` / `extern` before it
+			let mut first = i;
+			while first > 0 && matches!(text(first - 1), "pub" | "extern")
+			{
+				first -= 1;
+			}
+			// and ends at `;` or at the brace that closes its body
+			let mut j = i + 1;
+			let mut d = 0i32;
+			let mut end = toks.len();
+			while j < toks.len()
+			{
+				match text(j)
+				{
+					"(" | "[" => d += 1,
+					")" | "]" => d -= 1,
+					"{" => d += 1,
+					"}" =>
+					{
+						d -= 1;
+						if d == 0
+						{
+							end = j + 1;
+							break;
+						}
+					}
+					";" if d == 0 =>
+					{
+						end = j + 1;
+						break;
+					}
+					_ => (),
+				}
+				j += 1;
+			}
+			out.push_str(&src[keep_from..toks[first].start]);
+			keep_from = if end < toks.len() { toks[end].start } else { src.len() };
+			i = end;
+			continue;
+		}
+		i += 1;
 	}
-	false
+	if keep_from < src.len()
+	{
+		out.push_str(&src[keep_from..]);
+	}
+	out
 }
 
 fn judge(case: &Case, out: &mut CaseOut, want_sample: bool)
@@ -77,12 +114,19 @@ fn judge(case: &Case, out: &mut CaseOut, want_sample: bool)
 	{
 		// one recorded finding has this symptom (element types of a nested
 		// array literal that do not agree): keep it apart from anything else
-		let nested = case.files.iter().any(|(_, s)| has_nested_array_literal(s));
+		// Where does the silent failure sit? Compile the declarations alone
+		// (every function removed): still silent => among the declarations;
+		// otherwise a function is needed. One recorded finding (errors found
+		// only by the typer's pre-analysis of a function body are lost) has
+		// the second form; the first form is always something else.
+		let stripped: Vec<(String, String)> = case.files.iter().map(|(n, s)| (n.clone(), strip_functions(s))).collect();
+		let o2 = alpha::compile_modules(&stripped, alpha::Options::default());
+		let among_declarations = !o2.ok && o2.codes.is_empty() && o2.internal_error.is_none();
 		out.fail(
 			format!(
-				"failure with an empty list of errors (stage {}){}",
+				"failure with an empty list of errors (stage {}) [{}]",
 				o.stage,
-				if nested { " [source has a nested array literal]" } else { "" }
+				if among_declarations { "among the declarations" } else { "needs a function body" }
 			),
 			json!({"files": files_json(&case.files)}),
 		);
